@@ -82,7 +82,7 @@ pub struct F {
     pub receiver_alive: bool,       // the crossbeam Receiver still exists
     pub decodable: bool,            // the payload of THIS message decodes as T
 }
-pub struct CbSender<T> { pub _p: PhantomData<T> }
+pub struct CbSender<T> { pub ghost chan: int, pub ghost unbounded: bool, pub _p: PhantomData<T> }
 #[derive(Debug)] pub struct CbSendError { pub _p: () }
 pub uninterp spec fn val_id<T>(v: T) -> int;
 impl OpaqueIpcMessage {
@@ -107,3 +107,27 @@ impl<T> CbSender<T> {
     { unimplemented!() }
 }
 pub fn drop_value<T>(t: T) { }
+
+// ---- route_ipc_receiver_to_new_crossbeam_receiver: the crate itself creates the forwarding channel ----
+pub trait Serialize {}
+pub trait Deserialize<'de>: Sized {}
+pub struct IpcReceiver<T> { pub ghost rid: int, pub _p: PhantomData<T> }
+pub struct Receiver<T> { pub ghost chan: int, pub ghost unbounded: bool, pub _p: PhantomData<T> }    // crossbeam_channel::Receiver
+pub struct RouteLog { pub routes: Seq<(int, int, bool)> }   // (ipc receiver, crossbeam channel, that channel is unbounded), in registration order
+// crossbeam_channel::unbounded / bounded at element type T: both ends of ONE fresh channel; a send on an unbounded
+// channel never waits, a send on a bounded one waits while the channel is full
+#[verifier::external_body]
+pub fn cb_unbounded<T>() -> (r: (CbSender<T>, Receiver<T>))
+    ensures r.0.chan == r.1.chan, r.0.unbounded, r.1.unbounded
+{ unimplemented!() }
+#[verifier::external_body]
+pub fn cb_bounded<T>(cap: usize) -> (r: (CbSender<T>, Receiver<T>))
+    ensures r.0.chan == r.1.chan, !r.0.unbounded, !r.1.unbounded
+{ unimplemented!() }
+impl RouterProxy {
+    // route_ipc_receiver_to_crossbeam_sender (its callback is verified above, add_route in this unit): one route registered
+    #[verifier::external_body]
+    pub fn route_ipc_receiver_to_crossbeam_sender<T>(&self, ipc_receiver: IpcReceiver<T>, crossbeam_sender: CbSender<T>, Tracked(g): Tracked<&mut RouteLog>)
+        ensures final(g).routes == old(g).routes.push((ipc_receiver.rid, crossbeam_sender.chan, crossbeam_sender.unbounded))
+    { unimplemented!() }
+}
